@@ -13,7 +13,7 @@ META = dict(
                'lazy_dataset.core.Dataset.filter(lazy=False)', 'lazy_dataset.core.Dataset.catch', 'MapDataset/SliceDataset/ConcatenateDataset.__getitem__ below the catch'],
     stubs=['numpy -> np_shim'],
     assumptions=['failure plan per position r_i in {ok, listed type, subclass of listed type, foreign type}; caught set: single type / tuple of types / base class',
-                 'the raising stage is a map function 1 or 2 stages below the catch, optionally behind a reversing slice or a concatenation'],
+                 'the raising stage is a map function 1 or 2 stages below the catch, optionally behind a reversing slice, an index list, a concatenation (failing member first / middle / last), a tiling or an intersperse', 'exception families: user classes and subclasses of the builtin types the library catches internally (KeyError, IndexError, TypeError, AttributeError, ValueError, AssertionError, NotImplementedError, RuntimeError, StopIteration)'],
     bounds=dict(quick='n <= 3', thorough='n <= 4'),
     outside=['a *list* of exception types (in the docstring of catch, not in the property quantifier)', 'n above the bound'],
 )
@@ -167,6 +167,132 @@ def body_catch_lookup(n, sel, split, x0, x1, x2, x3, r0, r1, r2, r3):
     return [v for _, v in got] == list(ds) if err is None else True
 
 
+BUILTIN_BASES = dict(KeyError=KeyError, IndexError=IndexError, TypeError=TypeError, AttributeError=AttributeError, ValueError=ValueError,
+                     AssertionError=AssertionError, NotImplementedError=NotImplementedError, RuntimeError=RuntimeError, StopIteration=StopIteration)
+_BUILTIN_FAMILY = {}
+
+
+def _family(base):
+    """(X1 < base, X1Sub < X1, X2 = sibling of base that is not a subclass of it)"""
+    if base not in _BUILTIN_FAMILY:
+        b = BUILTIN_BASES[base]
+        x1 = type('X1_' + base, (b,), {})
+        x1sub = type('X1Sub_' + base, (x1,), {})
+        x2 = type('X2_' + base, (b.__mro__[1],), {})
+        _BUILTIN_FAMILY[base] = (x1, x1sub, x2)
+    return _BUILTIN_FAMILY[base]
+
+
+def body_catch_builtin(base, struct, backing, sel, n, split, x0, x1, x2, x3, r0, r1, r2, r3):
+    """"wherever in the upstream chain the exception originates": the failing stage raises exceptions from the families of the builtin
+    exception types that the library itself catches for its own purposes (IndexError for "past this member", KeyError for "not my key",
+    TypeError for "no length", ...) and sits below an index-driven structure (concatenation with the failing member first / in the middle,
+    tiling, an index list, intersperse).  Value iteration (list backed) and key iteration (dict backed) of catch()."""
+    xs = rt.mk(n, [x0, x1, x2, x3])
+    rs = rt.mk(n, [r0, r1, r2, r3])
+    for r in rs:
+        rt.assume(0 <= r)
+        rt.assume(r <= 3)
+    X1, X1Sub, X2 = _family(base)
+    caught = {'x1': X1, 'base': BUILTIN_BASES[base], 'x1sub': X1Sub, 'tuple': (X1, E1)}[sel]
+    keys = rt.KEYS[:n]
+
+    def f(ex):
+        x, r = ex
+        if r == 1:
+            raise X1(x)
+        if r == 2:
+            raise X1Sub(x)
+        if r == 3:
+            raise X2(x)
+        return x
+    triples = list(zip(keys, xs, rs))
+
+    def mk(part):
+        if backing == 'dict':
+            return DictDataset({k: (x, r) for k, x, r in part})
+        return ListDataset([(x, r) for k, x, r in part])
+    order = list(range(n))
+    if struct == 'cat':
+        ds = mk(triples[:split]).map(f).concatenate(mk(triples[split:]).map(f))
+    elif struct == 'cat3':
+        ds = mk(triples[:split]).map(f).concatenate(mk(triples[split:split + 1]).map(f), mk(triples[split + 1:]).map(lambda e: f(e)))
+    elif struct == 'tile':
+        ds = mk(triples).map(f).tile(2)
+        order = order + order
+    elif struct == 'idx':
+        ds = mk(triples).map(f)[[j for j in range(n - 1, -1, -1)]]
+        order = order[::-1]
+    elif struct == 'isp':
+        ds = mk(triples[:split]).map(f).intersperse(mk(triples[split:]).map(f))
+        a, b = split, n - split
+        # the library's rule: ascending (i + 1) / len, ties by input position (exact fractions by cross-multiplication)
+        pos = [(0, i) for i in range(a)] + [(1, i) for i in range(b)]
+        lens = (a, b)
+        order = []
+        rest = list(pos)
+        while rest:
+            best = rest[0]
+            for cand in rest[1:]:
+                if (cand[1] + 1) * lens[best[0]] < (best[1] + 1) * lens[cand[0]]:
+                    best = cand
+            rest.remove(best)
+            order.append(best[1] if best[0] == 0 else split + best[1])
+    else:   # 'plain'
+        ds = mk(triples).map(f)
+    ds = ds.catch(caught)
+    with_key = backing == 'dict'
+    exp, err = [], None
+    for i in order:
+        x, r = xs[i], rs[i]
+        drop = (r == 2) if sel == 'x1sub' else (r in (1, 2))
+        if drop:
+            continue
+        if r != 0:
+            err = (r, x)
+            break
+        exp.append((keys[i], x) if with_key else x)
+    got = []
+    try:
+        for v in (ds.items() if with_key else ds):
+            got.append(v)
+    except (X1, X2) as e:
+        rt.reached()
+        if err is None or got != exp or e.args[0] != err[1]:
+            return False
+        if err[0] == 1:
+            return type(e) is X1
+        if err[0] == 2:
+            return type(e) is X1Sub
+        return type(e) is X2
+    rt.reached()
+    return err is None and got == exp
+
+
+def _builtin_conds(tier, seed):
+    out = []
+    nmax = 3 if tier == 'quick' else 4
+    for base in BUILTIN_BASES:
+        for struct in ('plain', 'cat', 'cat3', 'tile', 'idx', 'isp'):
+            for backing in ('list', 'dict'):
+                if backing == 'dict' and struct == 'tile':
+                    continue          # duplicate keys
+                sels = ('x1', 'base', 'x1sub', 'tuple') if (tier != 'quick' or base in ('IndexError', 'KeyError', 'TypeError')) else ('x1',)
+                for sel in sels:
+                    for n in range(1, nmax + 1):
+                        if struct in ('cat', 'isp'):
+                            splits = [sp for sp in range(0, n + 1) if struct == 'cat' or 0 < sp < n]
+                        elif struct == 'cat3':
+                            splits = list(range(0, n))
+                        else:
+                            splits = [0]
+                        if tier == 'quick' and sel != 'x1' and n < nmax:
+                            continue
+                        for sp in splits:
+                            out.append((base, struct, backing, sel, n, sp))
+    return out
+
+
 def body_filter_equiv(backing, n, x0, x1, x2, x3, t):
     """lazy filter, eager filter and FilterException under catch() select the same examples"""
     xs = rt.mk(n, [x0, x1, x2, x3])
@@ -226,6 +352,9 @@ FAMILIES = [
     Family('catch_lookup', body_catch_lookup, ['n', 'sel', 'split'], XR,
            lambda tier, seed: [(n, sel, sp) for n in range(0, (4 if tier == 'quick' else 5)) for sel in ('keyerror', 'k1', 'k1sub', 'tuple') for sp in range(0, n + 1)],
            timeout=dict(quick=60, thorough=300), desc='KeyError-family exceptions below a concatenation, key iteration of catch()'),
+    Family('catch_builtin', body_catch_builtin, ['base', 'struct', 'backing', 'sel', 'n', 'split'], XR, _builtin_conds, timeout=dict(quick=90, thorough=300),
+           desc='failures from the families of builtin exception types the library catches internally (IndexError, KeyError, TypeError, ...) '
+                'below concatenation / tiling / index list / intersperse: exactly the listed ones are dropped, value and key iteration'),
     Family('filter_equiv', body_filter_equiv, ['backing', 'n'], [(f'x{i}', 'int') for i in range(4)] + [('t', 'int')],
            lambda tier, seed: [(b, n) for b in ('list', 'dict') for n in range(0, (4 if tier == 'quick' else 5))], timeout=dict(quick=60, thorough=300),
            desc='lazy filter == eager filter == FilterException under catch()'),
